@@ -124,8 +124,12 @@ Fixpoint ra_tree (mask : list bool) (t : ptree) : ptree :=
   | T f => T (ra_aff mask f)
   | D p ch => D (ra_aff mask p) (map (ra_tree mask) ch)
   end.
-(* n = in_dim of the tree; a wrong mask length is an Err, the all-false mask panics (concatenate of an empty list) *)
+(* n = in_dim of the tree; a wrong mask length is an Err and leaves the tree unchanged.  An all-false mask (the slice
+   that fixes every axis) yields the tree over R^0 (since the repair of /repo: Array::select instead of concatenate) *)
 Definition remove_axes (n : nat) (mask : list bool) (t : ptree) : sres :=
+  if negb (Nat.eqb n (length mask)) then SErr else SOk (ra_tree mask t).
+(* the code as found: `concatenate(Axis(1), &[])` is an error in ndarray and the `unwrap` panics *)
+Definition remove_axes_found (n : nat) (mask : list bool) (t : ptree) : sres :=
   if negb (Nat.eqb n (length mask)) then SErr
   else if existsb (fun b => b) mask then SOk (ra_tree mask t)
   else SPanic.
